@@ -1,60 +1,142 @@
 """C18: generator of the typed-flow JDF family.
 
-A *structure* is a multiset of 1..3 consumer kinds.  Every structure becomes one JDF (sNNN.jdf) whose dependency
-annotations name *type slots* (TO1, TI1, RO1, ... ) that the driver binds at run time to the FULL / LOWER / UPPER
-arena-datatypes, so one compiled JDF serves every type combination, tile size and placement.
+A *structure* is an ordered sequence of 1..3 *edges* of the producer's output flow (kinds below) plus a *naming* of the
+local output types: which of the edges that carry `[type = ...]` on the producer's side use the SAME type name (a set
+partition of those edges).  Every structure becomes one JDF (sNNN.jdf) whose dependency annotations name *type slots*
+(TO1, TI1, RO1, ...) that the driver binds at run time to the FULL / LOWER / UPPER arena-datatypes, so one compiled JDF
+serves every type combination, tile size and placement.  The PTG compiler only sees the NAMES: two output deps have "the
+same local datatype" for it exactly when they use the same slot name, which is why the naming is part of the structure.
 
-Program shape (NC consumers, j = 1..NC):
-   P(0)  on rank 0            RW A <- descA(0)            -> A Cj(0) [out annotation of kind j]      (absent if no consumer reads from P)
+Program shape (NE edges, j = 1..NE, declared on P's flow in the order of the sequence):
+   P(0)  on rank 0            RW A <- descA(0)            -> A Cj(0) [out annotation of kind j]      consumer edge
+                                                          -> descW(j-1) [type / type_data]           write-back edge (no task)
    Cj(0) on owner(descR(j-1)) RW A <- A P(0) [in annotation]  |  <- descA(0) [type_data/type]        body: snapshot of the copy it received
    Wj(0) same rank            RW A <- A Cj(0)   after ALL C (CTL barrier)                              body: writes marker j into the whole copy
    Dj(0) same rank            READ A <- A Wj(0) after ALL W (CTL barrier)                              body: second snapshot
 """
 import itertools
 
-# kind -> (out annotation on P's dep, in annotation on C's dep, reads_collection, slots used)
-#   {j} is replaced by the consumer index (1-based); the shared-slot kind uses the same names for every consumer
+# kind -> (out annotation on P's dep, in annotation on C's dep, reads_collection, write-back)
+#   {j} is replaced by the edge index (1-based), {t} by the index of the local output type slot of the edge (== j unless
+#   the naming shares it with an earlier edge); the shared-slot kind 's' uses the same names for every consumer
 KINDS = {
     'n':  dict(out='',                                    inn='',                                    coll=False),   # no type at all
-    'o':  dict(out='[type = TO{j}]',                      inn='',                                    coll=False),   # type on the producer's output dep
-    'b':  dict(out='[type = TO{j}]',                      inn='[type = TI{j}]',                      coll=False),   # type on both sides
+    'o':  dict(out='[type = TO{t}]',                      inn='',                                    coll=False),   # type on the producer's output dep
+    'b':  dict(out='[type = TO{t}]',                      inn='[type = TI{j}]',                      coll=False),   # type on both sides
     'i':  dict(out='',                                    inn='[type = TI{j}]',                      coll=False),   # type on the input dep only
     'r':  dict(out='[type_remote = RO{j}]',               inn='[type_remote = RI{j}]',               coll=False),   # type_remote on both sides
     's':  dict(out='[type_remote = RSO]',                 inn='[type_remote = RSI]',                 coll=False),   # type_remote, slot shared by all 's' consumers
-    'x':  dict(out='[type = TO{j} type_remote = RO{j}]',  inn='[type = TI{j} type_remote = RI{j}]',  coll=False),   # both type and type_remote
+    'x':  dict(out='[type = TO{t} type_remote = RO{j}]',  inn='[type = TI{j} type_remote = RI{j}]',  coll=False),   # both type and type_remote
     'd':  dict(out=None,                                  inn='[type_data = TD{j}]',                 coll=True),    # reads the collection with type_data
     'e':  dict(out=None,                                  inn='[type = TI{j} type_data = TD{j}]',    coll=True),    # reads the collection with type and type_data
+    # write-backs of the producer's flow to an element of a second collection (CHANGELOG.ptg.md "Writing to matrix", cases 1-4)
+    'w':  dict(out='[type = TO{t} type_data = TD{j}]',    inn=None,                                  coll=False, wb=True),   # (1) Pack A type,   Unpack type_data
+    'u':  dict(out='[type_data = TD{j}]',                 inn=None,                                  coll=False, wb=True),   # (2) Pack A A.type, Unpack type_data
+    't':  dict(out='[type = TO{t}]',                      inn=None,                                  coll=False, wb=True),   # (3) Pack A type,   Unpack desc.type
+    'v':  dict(out='',                                    inn=None,                                  coll=False, wb=True),   # (4) Pack A A.type, Unpack desc.type
 }
-KIND_ORDER = 'nobirsxde'
 SLOTS = ['TO1', 'TO2', 'TO3', 'TI1', 'TI2', 'TI3', 'RO1', 'RO2', 'RO3', 'RI1', 'RI2', 'RI3', 'TD1', 'TD2', 'TD3', 'RSO', 'RSI']
 
+QUICK_KINDS = 'nobirsxwv'        # kinds with an output dep on P (their declaration order matters)
+THOR_KINDS = 'nobirsxwvtu'
+COLL_KINDS = 'de'                # no output dep on P: always declared last (their order is immaterial to P's flow)
 
-def structures(tier):
-    """multisets of kinds: all singles and pairs; triples over a reduced kind set (thorough: more)"""
+
+def is_wb(k):
+    return bool(KINDS[k].get('wb'))
+
+
+def has_to(k):
+    return KINDS[k]['out'] is not None and 'TO{t}' in KINDS[k]['out']
+
+
+def namings(seq):
+    """all set partitions of the edges of `seq` that carry a local output type; block id = index (1-based) of its first edge.
+    Returns strings of one digit per edge ('0': the edge has no local output type)."""
+    idx = [j for j, k in enumerate(seq) if has_to(k)]
     out = []
-    for k in KIND_ORDER:
-        out.append(k)
-    for a, b in itertools.combinations_with_replacement(KIND_ORDER, 2):
-        out.append(a + b)
-    tri = 'nobrsd' if tier == 'thorough' else 'obr'
-    for t in itertools.combinations_with_replacement(tri, 3):
-        out.append(''.join(t))
+
+    def rec(p, cur):
+        if p == len(idx):
+            out.append(''.join(str(cur.get(j, 0)) for j in range(len(seq))))
+            return
+        j = idx[p]
+        for b in sorted(set(cur.values())):
+            cur[j] = b
+            rec(p + 1, cur)
+        cur[j] = j + 1
+        rec(p + 1, cur)
+        del cur[j]
+    rec(0, {})
     return out
 
 
-def slots_of(struct):
+def key_of(seq, to):
+    ident = ''.join(str(j + 1) if has_to(k) else '0' for j, k in enumerate(seq))
+    return seq if to == ident else seq + '.' + to
+
+
+def sequences(pk, n, extra_coll=COLL_KINDS):
+    """every declaration order of n edges: ordered sequences over the kinds `pk` (output dep on P), followed by a multiset of
+    collection readers"""
+    out = []
+    for nq in range(0, n + 1):
+        for head in itertools.product(pk, repeat=n - nq):
+            for tail in itertools.combinations_with_replacement(extra_coll, nq):
+                out.append(''.join(head) + ''.join(tail))
+    return out
+
+
+def structures(tier):
+    """list of (key, kinds, naming).  singles and pairs: every kind, every declaration order, every naming; triples over reduced
+    kind sets (quick: every order and naming of {o,b,r}^3, and of one write-back (typed w / untyped v) at every position among
+    two consumers of {n,o,b}; thorough: every order and naming over {n,o,b,r,w,v} + the collection reader d, and the multisets
+    over {n,o,b,r,s,d} that contain the shared-remote-type kind s)"""
+    pk = THOR_KINDS if tier == 'thorough' else QUICK_KINDS
+    seqs = sequences(pk, 1) + sequences(pk, 2)
+    if tier == 'thorough':
+        seqs += sequences('nobrwv', 3, 'd')
+        seqs += [''.join(t) for t in itertools.combinations_with_replacement('nobrsd', 3) if 's' in t]
+    else:
+        seqs += sequences('obr', 3, '')
+        for wk in 'wv':
+            for pos in range(3):
+                for a, b in itertools.product('nob', repeat=2):
+                    s = [a, b]
+                    s.insert(pos, wk)
+                    seqs.append(''.join(s))
+    out, seen = [], set()
+    for s in seqs:
+        for to in namings(s):
+            k = key_of(s, to)
+            if k not in seen:
+                seen.add(k)
+                out.append((k, s, to))
+    return out
+
+
+def ann(kind, side, j, t):
+    a = KINDS[kind][side]
+    return a.replace('{j}', str(j)).replace('{t}', str(t))
+
+
+def slots_of(struct, to):
     used = []
     for j, k in enumerate(struct, 1):
-        for part in (KINDS[k]['out'] or '', KINDS[k]['inn']):
+        for part in (KINDS[k]['out'] or '', KINDS[k]['inn'] or ''):
             for w in part.replace('[', ' ').replace(']', ' ').replace('=', ' ').split():
-                w = w.replace('{j}', str(j))
+                w = w.replace('{j}', str(j)).replace('{t}', to[j - 1])
                 if w in SLOTS and w not in used:
                     used.append(w)
     return used
 
 
-def jdf_text(name, struct):
-    nc = len(struct)
+def has_w(struct):
+    return any(is_wb(k) for k in struct)
+
+
+def jdf_text(name, struct, to):
+    cons = [j for j, k in enumerate(struct, 1) if not is_wb(k)]          # edges that have consumer tasks
     has_p = any(not KINDS[k]['coll'] for k in struct)
     L = []
     L.append('extern "C" %{')
@@ -65,6 +147,8 @@ def jdf_text(name, struct):
     L.append('%}')
     L.append('descA [type = "parsec_data_collection_t*"]')
     L.append('descR [type = "parsec_data_collection_t*"]')
+    if has_w(struct):
+        L.append('descW [type = "parsec_data_collection_t*"]')
     L.append('')
     if has_p:
         L.append('P(z)')
@@ -74,21 +158,23 @@ def jdf_text(name, struct):
         for j, k in enumerate(struct, 1):
             if KINDS[k]['coll']:
                 continue
-            ann = KINDS[k]['out'].replace('{j}', str(j))
-            L.append('%s -> A C%d(0) %s' % ('RW A <- descA(0)\n    ' if first else '    ', j, ann))
+            a = ann(k, 'out', j, to[j - 1])
+            target = 'descW(%d)' % (j - 1) if is_wb(k) else 'A C%d(0)' % j
+            L.append('%s -> %s %s' % ('RW A <- descA(0)\n    ' if first else '    ', target, a))
             first = False
         L.append('BODY')
         L.append('    vc_prod(A);')
         L.append('END')
         L.append('')
-    for j, k in enumerate(struct, 1):
-        ann = KINDS[k]['inn'].replace('{j}', str(j))
+    for j in cons:
+        k = struct[j - 1]
+        a = ann(k, 'inn', j, to[j - 1])
         L.append('C%d(z)' % j)
         L.append('z = 0 .. 0')
         L.append(': descR(%d)' % (j - 1))
-        L.append('RW A <- %s %s' % ('descA(0)' if KINDS[k]['coll'] else 'A P(0)', ann))
+        L.append('RW A <- %s %s' % ('descA(0)' if KINDS[k]['coll'] else 'A P(0)', a))
         L.append('     -> A W%d(0)' % j)
-        for i in range(1, nc + 1):
+        for i in cons:
             L.append('CTL X%d -> X%d W%d(0)' % (i, j, i))
         L.append('BODY')
         L.append('    vc_snap(%d, 0, A);' % j)
@@ -99,9 +185,9 @@ def jdf_text(name, struct):
         L.append(': descR(%d)' % (j - 1))
         L.append('RW A <- A C%d(0)' % j)
         L.append('     -> A D%d(0)' % j)
-        for i in range(1, nc + 1):
+        for i in cons:
             L.append('CTL X%d <- X%d C%d(0)' % (i, j, i))
-        for i in range(1, nc + 1):
+        for i in cons:
             L.append('CTL Y%d -> Y%d D%d(0)' % (i, j, i))
         L.append('BODY')
         L.append('    vc_write(%d, A);' % j)
@@ -111,7 +197,7 @@ def jdf_text(name, struct):
         L.append('z = 0 .. 0')
         L.append(': descR(%d)' % (j - 1))
         L.append('READ A <- A W%d(0)' % j)
-        for i in range(1, nc + 1):
+        for i in cons:
             L.append('CTL Y%d <- Y%d W%d(0)' % (i, j, i))
         L.append('BODY')
         L.append('    vc_snap(%d, 1, A);' % j)
@@ -120,23 +206,31 @@ def jdf_text(name, struct):
     return '\n'.join(L) + '\n'
 
 
+MK_SIG = '(parsec_data_collection_t *A, parsec_data_collection_t *R, parsec_data_collection_t *W, parsec_arena_datatype_t *dflt, parsec_arena_datatype_t **slot)'
+
+
+def wrapper_text(name, struct, to):
+    """one translation unit per structure: the generated code + the constructor that binds the type slots"""
+    L = ['/* generated by gen.py */', '#include "%s.c"' % name, '#include "c18.h"',
+         'parsec_taskpool_t *mk_%s%s' % (name, MK_SIG), '{',
+         '    parsec_%s_taskpool_t *tp = parsec_%s_new(A, R%s);' % (name, name, ', W' if has_w(struct) else ''),
+         '    tp->arenas_datatypes[PARSEC_%s_DEFAULT_ADT_IDX] = *dflt;' % name]
+    for s in slots_of(struct, to):
+        L.append('    tp->arenas_datatypes[PARSEC_%s_%s_ADT_IDX] = *slot[SLOT_%s];' % (name, s, s))
+    L.append('    (void)slot; (void)W; return &tp->super;')
+    L.append('}')
+    return '\n'.join(L) + '\n'
+
+
 def glue_text(names_structs):
+    """names_structs: list of (name, (key, kinds, naming)): the table of structures"""
     L = ['/* generated by gen.py */', '#include "parsec.h"', '#include "parsec/arena.h"', '#include "c18.h"']
     for name, _ in names_structs:
-        L.append('#include "%s.h"' % name)
-    for name, struct in names_structs:
-        L.append('static parsec_taskpool_t *mk_%s(parsec_data_collection_t *A, parsec_data_collection_t *R, parsec_arena_datatype_t *dflt, parsec_arena_datatype_t **slot)' % name)
-        L.append('{')
-        L.append('    parsec_%s_taskpool_t *tp = parsec_%s_new(A, R);' % (name, name))
-        L.append('    tp->arenas_datatypes[PARSEC_%s_DEFAULT_ADT_IDX] = *dflt;' % name)
-        for s in slots_of(struct):
-            L.append('    tp->arenas_datatypes[PARSEC_%s_%s_ADT_IDX] = *slot[SLOT_%s];' % (name, s, s))
-        L.append('    (void)slot; return &tp->super;')
-        L.append('}')
+        L.append('extern parsec_taskpool_t *mk_%s%s;' % (name, MK_SIG))
     L.append('const c18_struct_t c18_structs[] = {')
-    for name, struct in names_structs:
-        L.append('    { "%s", "%s", %d, mk_%s },' % (name, struct, len(struct), name))
-    L.append('    { NULL, NULL, 0, NULL } };')
+    for name, (key, struct, to) in names_structs:
+        L.append('    { "%s", "%s", "%s", "%s", %d, mk_%s },' % (name, key, struct, to, len(struct), name))
+    L.append('    { NULL, NULL, NULL, NULL, 0, NULL } };')
     return '\n'.join(L) + '\n'
 
 
@@ -144,7 +238,8 @@ def header_text():
     L = ['/* generated by gen.py */', '#ifndef C18_H', '#define C18_H', '#include "parsec.h"',
          'enum { ' + ', '.join('SLOT_%s' % s for s in SLOTS) + ', SLOT_COUNT };',
          'static const char *c18_slot_names[] = { ' + ', '.join('"%s"' % s for s in SLOTS) + ' };',
-         'typedef struct { const char *name, *kinds; int nc;',
-         '    parsec_taskpool_t *(*mk)(parsec_data_collection_t *A, parsec_data_collection_t *R, parsec_arena_datatype_t *dflt, parsec_arena_datatype_t **slot); } c18_struct_t;',
+         '/* key: unique name of the structure (kinds[.naming]); kinds: one letter per edge in declaration order; to: per edge the index of its local output type slot (0: none) */',
+         'typedef struct { const char *name, *key, *kinds, *to; int nc;',
+         '    parsec_taskpool_t *(*mk)(parsec_data_collection_t *A, parsec_data_collection_t *R, parsec_data_collection_t *W, parsec_arena_datatype_t *dflt, parsec_arena_datatype_t **slot); } c18_struct_t;',
          'extern const c18_struct_t c18_structs[];', '#endif']
     return '\n'.join(L) + '\n'
